@@ -202,6 +202,9 @@ func (m *MuxBroker) timeoutWait(id uint32, p *muxBrokerPending) {
 		select {
 		case s := <-p.ch:
 			s.Close()
+		default:
+			// Nothing is parked: the connection was picked up (or drained by
+			// another expiry) in the meantime. Never block while holding the lock.
 		}
 	}
 }
